@@ -174,6 +174,12 @@ func init() {
 				add(s)
 			}
 		}
+		// A task reaped for its pending timeout finishes on its own while it is being deleted, then goes away.
+		lf := jobBase("none-att2-pendingtimeout-latefinish")
+		lf.MaxAttempts, lf.MaxFail = 2, 1
+		lf.PendingTimeoutJob = i64(30)
+		lf.PodActions = []string{"run", "succeed", "fail", "sched", "latefinish"}
+		add(lf)
 		// Deletion and kill with crashes.
 		s = jobBase("none-att1-delete-crash1")
 		s.DeleteJob = true
@@ -362,6 +368,15 @@ func init() {
 		s.PendingTimeoutJob, s.ForceDeleteCfg, s.KubeletDead = i64(30), i64(60), true
 		s.PodActions = []string{"run", "succeed", "sched"}
 		add(s)
+		// Kill of a Job that is already "finished" by an admission error while tasks of other indexes live.
+		fk := jobBase("foreign-noowner-count2-kill")
+		fk.Parallelism, fk.ForeignPod, fk.MaxAttempts = "count2", "noowner", 2
+		fk.PodActions = fullPod
+		fk.Kill, fk.MaxKill = []string{"0", "30"}, 1
+		add(fk)
+		// ... and with the foreign pod on the name of the first retry: by then the tasks of both indexes are recorded.
+		fk.Name, fk.ForeignRetry, fk.MaxFail = "foreign-noowner-retry1-count2-kill", 1, 1
+		add(fk)
 		if thorough {
 			for _, shape := range []string{"none", "count2"} {
 				s := jobBase(shape + "-kill-lag1-fault1")
